@@ -269,6 +269,10 @@ pub fn case(t: &mut Tape, ctx: &CaseCtx) -> CaseResult {
             s.storage_init.push(("server_dictated_poll_interval".into(), SVal::I(*t.pick(&[0i64, 1, 5_000_000, 86_400_000_000]))));
         }
         if t.chance(1, 4) {
+            // replies labelled with unauthenticated headers (Content-Type text/html ...): they change nothing
+            s.content_type_mask = t.raw();
+        }
+        if t.chance(1, 4) {
             // the embedder switches channel while the machine sits in a wait (a backoff, typically)
             s.embedder_changes_apps_at_wait = Some(1 + t.choose(4));
         }
